@@ -15,7 +15,9 @@ def real_compile(doc, next_id):
     g = gh.IdGenerator()
     for _ in range(next_id):
         g.get_next_id()
-    return gh.Compiler(g).compile(copy.deepcopy(doc))
+    # the document goes through a JSON round trip first (as it does when it travels as a message): equal content, but no
+    # string / list object is shared with anything the library may hold on to
+    return gh.Compiler(g).compile(json.loads(json.dumps(doc)))
 
 
 def max_id(x, acc=-1):
